@@ -45,7 +45,7 @@ KINDS = [
 
 
 def budget(tier):
-    return {"examples": 1500 if tier == "quick" else 12000}
+    return {"examples": 3000 if tier == "quick" else 20000}
 
 
 def essential_labels(tier):
